@@ -3,12 +3,29 @@
 //
 // Legs (one replay kind each):
 //
-//	segmenter    examples/segmenter BINARY (default, -m, -lazy) on progressive files written by internal/mp4build
+//	segmenter    examples/segmenter BINARY (default, -m, -lazy, -m -lazy) on progressive files written by internal/mp4build
 //	resegmenter  examples/resegmenter BINARY on single-track fragmented files written by internal/fragbuild
 //	fragmentify  mp4.MediaSegment.Fragmentify in-process on the same kind of files
 //	combinesegs  examples/combine-segs BINARY on two single-track init+media segment pairs with explicit per-sample values
 //
 // All outputs are read with the harness' own reader (fragbuild.Read / ReadWith), never with the library.
+//
+// Exit status: the inputs are valid by construction, so a tool that exits with an error has not done its
+// job: "error on valid input" (resegmenter, combine-segs: always; segmenter: unless the message is the one
+// about a track that ends before a segment start, AND the model shows such a track). A time limit that is
+// exceeded twice (in the batch and alone, toolrun_test.go) is "time limit exceeded".
+//
+// # Where the segmenter puts the segment starts
+//
+// examples/segmenter/main.go, option -d: "Required: segment duration (milliseconds). The segments will start
+// at syncSamples with decoded time >= n*segDur". examples/segmenter/segment.go getSegmentStartsFromVideo:
+// step = segDurMS * timescale / 1000 ticks of the video track (integer division); the sync samples of the
+// video track are visited in order, a sample whose PRESENTATION time (decode time + composition offset) is
+// >= nextSegmentStart becomes a segment start and nextSegmentStart += step (first value 0), i.e. segment
+// k+1 starts at the first sync sample, after the start of segment k, with time >= k*step. The usage text says
+// decode time, the source uses presentation time: the oracle computes both readings from the model in
+// 64-bit arithmetic and fails when the output follows neither of them
+// ("segment boundary not at the documented sync sample").
 package c11
 
 import (
@@ -76,6 +93,20 @@ var avoidKnown = map[string]bool{
 	// check: a video track without stss (= every sample is a sync sample) is a nil pointer panic.
 	// Generator side: the video track gets an stss.
 	"segmenter-video-without-stss": false, // repaired in /repo (fix: 212c8b8)
+	// MediaSegment.Fragmentify accumulates the sample durations of the current output fragment in a uint32
+	// (cumDur): when the sum passes 2^32 it wraps, the comparison with the target sees a small value and the
+	// fragment is not closed (4 samples of duration 0x80000000, target 0xc0000000: one fragment of 4 samples
+	// instead of 2+2). Oracle side: "continues after reaching the target" is not judged for an output
+	// fragment that had accumulated >= 2^32 before its last sample (no target value reaches that).
+	// Reproducer: replay/C11/pending/new-fragmentify-accumulated-duration-wraps.json
+	"fragmentify-accumulated-duration-wraps": false, // repaired in /repo (fix: 6723fbb)
+	// examples/segmenter getSegmentStartsFromVideo keeps the step (segDurMS * timescale / 1000 ticks) and the
+	// next segment start in uint32 variables: -d 47721859 on a 90 kHz track is a step of 4294967310 ticks,
+	// stored as 14: a segment at every sync sample instead of a single one (and, with a second track that is
+	// over by then, "no matching sample found"). Oracle side: with a step beyond 32 bits neither the segment
+	// starts nor an error exit are judged (sample conservation and sync starts still are).
+	// Reproducers: replay/C11/pending/new-segmenter-step-truncated-to-32-bits*.json
+	"segmenter-step-truncated-to-32-bits": false, // repaired in /repo (fix: 03e8124)
 }
 
 func avoiding(noAvoid bool, name string) bool { return !noAvoid && avoidKnown[name] }
@@ -256,7 +287,7 @@ func exitReason(stderr string) string {
 type segCase struct {
 	Tracks   []mp4build.Track    `json:"tracks"`
 	Layout   mp4build.ProgLayout `json:"layout"`
-	Mode     string              `json:"mode"` // "single" | "mux" | "lazy"
+	Mode     string              `json:"mode"` // "single" | "mux" | "lazy" | "muxlazy" (-m -lazy)
 	SegDurMS uint64              `json:"segDurMS"`
 	NoAvoid  bool                `json:"noAvoid,omitempty"`
 }
@@ -267,8 +298,74 @@ func segArea(mode string) string {
 		return "segmenter -m"
 	case "lazy":
 		return "segmenter -lazy"
+	case "muxlazy":
+		return "segmenter -m -lazy"
 	}
 	return "segmenter"
+}
+
+// segStarts returns the (0-based) video samples at which the segments start by the rule quoted in the
+// package comment, computed from the model in 64-bit arithmetic: byPres = presentation time (the source),
+// otherwise decode time (the usage text).
+func segStarts(c *segCase, byPres bool) []int {
+	vi := videoIndex(c.Tracks)
+	v, tl := c.Tracks[vi], c.Layout.Tracks[vi]
+	step := c.SegDurMS * uint64(v.Timescale) / 1000
+	var starts []int
+	var next, dt uint64
+	for i, s := range v.Samples {
+		tm := int64(dt)
+		if byPres {
+			tm += int64(s.Cto)
+		}
+		if (!tl.Stss || s.Sync) && tm >= 0 && uint64(tm) >= next {
+			starts = append(starts, i)
+			next += step
+		}
+		dt += uint64(s.Dur)
+	}
+	return starts
+}
+
+func sameInts(a, b []int) bool {
+	if len(a) != len(b) {
+		return false
+	}
+	for i := range a {
+		if a[i] != b[i] {
+			return false
+		}
+	}
+	return true
+}
+
+// trackEndsBeforeAStart: the decode time of one of the segment starts 2.. (converted to the timescale of
+// another track, as the tool does) is not inside that track: there is no sample to start the segment with,
+// the tool reports "no matching sample found" (a limitation it states by that message).
+func trackEndsBeforeAStart(c *segCase, starts []int) bool {
+	vi := videoIndex(c.Tracks)
+	v := c.Tracks[vi]
+	dts := make([]uint64, len(v.Samples))
+	var dt uint64
+	for i, s := range v.Samples {
+		dts[i] = dt
+		dt += uint64(s.Dur)
+	}
+	for ti, tr := range c.Tracks {
+		if ti == vi {
+			continue
+		}
+		var total uint64
+		for _, s := range tr.Samples {
+			total += uint64(s.Dur)
+		}
+		for k := 1; k < len(starts); k++ {
+			if dts[starts[k]]*uint64(tr.Timescale)/uint64(v.Timescale) >= total {
+				return true
+			}
+		}
+	}
+	return false
 }
 
 func checkSegmenter(c segCase) *harness.Fail {
@@ -317,15 +414,28 @@ func evalSegmenter(c *segCase) (fail *harness.Fail, info evalInfo) {
 	}
 	args := []string{"-d", fmt.Sprint(c.SegDurMS)}
 	switch c.Mode {
+	case "single":
 	case "mux":
 		args = append(args, "-m")
 	case "lazy":
 		args = append(args, "-lazy")
+	case "muxlazy":
+		args = append(args, "-m", "-lazy")
+	default:
+		return harness.Failf("harness|c11|bad-case", "mode %q", c.Mode), info
 	}
+	mux := c.Mode == "mux" || c.Mode == "muxlazy"
 	args = append(args, "in.mp4", "out")
+	cmdline := "segmenter " + strings.Join(args[:len(args)-2], " ")
+	startsPres, startsDec := segStarts(c, true), segStarts(c, false)
+	wideStep := c.SegDurMS*uint64(c.Tracks[vi].Timescale)/1000 > 0xffffffff
 	res := runTool(dir, binPath("segmenter"), args...)
 	if res.StartErr != nil {
 		return harness.Failf("harness|c11|cannot start tool", "%v", res.StartErr), info
+	}
+	info.add(res.SlowUnderLoad, "tool-slow-under-load", "")
+	if res.TimedOut {
+		return timeLimitFail(area, cmdline, res), info
 	}
 	if crashed, class := res.crashed(); crashed {
 		info.class("segmenter-exit-crash")
@@ -336,8 +446,18 @@ func evalSegmenter(c *segCase) (fail *harness.Fail, info evalInfo) {
 		return harness.Failf("C11|"+area+"|panic ("+class+")", "segmenter %s: exit status %d\n%s", strings.Join(args, " "), res.Exit, headTail(res.Stderr, 700)), info
 	}
 	if res.Exit != 0 {
-		info.class("segmenter-exit-error", "segmenter-exit-error: "+exitReason(res.Stderr))
-		return nil, info // no claim
+		reason := exitReason(res.Stderr)
+		info.class("segmenter-exit-error", "segmenter-exit-error: "+reason)
+		if strings.Contains(reason, "no matching sample found") && (trackEndsBeforeAStart(c, startsPres) || trackEndsBeforeAStart(c, startsDec)) {
+			info.class("segmenter-exit-error-track-ends-before-a-segment-start")
+			return nil, info // the one stated limitation: no claim
+		}
+		if wideStep && avoiding(c.NoAvoid, "segmenter-step-truncated-to-32-bits") {
+			info.exclude("segmenter-step-truncated-to-32-bits")
+			return nil, info
+		}
+		return harness.Failf("C11|"+area+"|error on valid input", "%s: exit status %d: %s\n(segment starts by the model: video samples %v; no other track ends before one of them)",
+			cmdline, res.Exit, tail(res.Stderr, 600), startsPres), info
 	}
 	info.class("segmenter-exit-0")
 
@@ -369,7 +489,8 @@ func evalSegmenter(c *segCase) (fail *harness.Fail, info evalInfo) {
 	type trackOut struct {
 		samples   []fragbuild.PSample
 		segFirst  []int // index into samples of the first sample of every segment file that holds samples of the track
-		emptySegs int
+		emptySegs int   // segment files that hold no sample of the track
+		noFile    int   // segment numbers without a file for the track (single-track modes)
 	}
 	readTrack := func(initName string, kind string, trackID uint32) (*trackOut, *harness.Fail) {
 		ib, err := os.ReadFile(filepath.Join(dir, initName))
@@ -387,6 +508,7 @@ func evalSegmenter(c *segCase) (fail *harness.Fail, info evalInfo) {
 		for n := 1; n <= maxSeg; n++ {
 			name, ok := segFiles[kind][n]
 			if !ok {
+				to.noFile++
 				continue
 			}
 			sb, err := os.ReadFile(filepath.Join(dir, name))
@@ -419,8 +541,8 @@ func evalSegmenter(c *segCase) (fail *harness.Fail, info evalInfo) {
 	for ti, tr := range c.Tracks {
 		var to *trackOut
 		var f *harness.Fail
-		what := fmt.Sprintf("segmenter %s: track #%d (%s)", strings.Join(args[:len(args)-2], " "), ti+1, tr.Handler)
-		if c.Mode == "mux" {
+		what := fmt.Sprintf("%s: track #%d (%s)", cmdline, ti+1, tr.Handler)
+		if mux {
 			to, f = readTrack("out_init.mp4", "m", uint32(ti+1))
 		} else {
 			letter := map[string]string{"vide": "v", "soun": "a"}[tr.Handler]
@@ -440,14 +562,40 @@ func evalSegmenter(c *segCase) (fail *harness.Fail, info evalInfo) {
 		if ti == vi {
 			videoOut = to
 		}
+		// a segment (file) in which a track has no sample is accepted (an audio track may end early; for the
+		// video track it contradicts no sentence of the property as long as every sample is somewhere): counted
+		if to.emptySegs > 0 {
+			info.class("segmenter-segment-without-" + tr.Handler + "-samples")
+			info.add(mux, "segmenter-mux-segment-without-"+tr.Handler+"-samples", "")
+		}
+		info.add(to.noFile > 0, "segmenter-segment-number-without-"+tr.Handler+"-file", "")
 	}
 	// ---- every segment starts with a sync sample of the reference (video) track
 	for si, first := range videoOut.segFirst {
 		if s := videoOut.samples[first]; !flagsSync(s.Flags) {
 			return harness.Failf("C11|"+area+"|segment does not start with a sync sample of the reference track",
-				"segmenter %s: segment %d of %d with video samples starts with video sample %d (flags %#08x), which is not a sync sample",
-				strings.Join(args[:len(args)-2], " "), si+1, len(videoOut.segFirst), first+1, s.Flags), info
+				"%s: segment %d of %d with video samples starts with video sample %d (flags %#08x), which is not a sync sample",
+				cmdline, si+1, len(videoOut.segFirst), first+1, s.Flags), info
 		}
+	}
+	// ---- the segments start where the documentation puts them (package comment)
+	{
+		agree := sameInts(startsPres, startsDec)
+		info.add(agree, "segmenter-boundary-rule-readings-agree", "segmenter-boundary-rule-readings-differ")
+		switch {
+		case sameInts(videoOut.segFirst, startsPres):
+			info.add(!agree, "segmenter-boundaries-by-presentation-time", "")
+		case sameInts(videoOut.segFirst, startsDec):
+			info.class("segmenter-boundaries-by-decode-time")
+		case wideStep && avoiding(c.NoAvoid, "segmenter-step-truncated-to-32-bits"):
+			info.exclude("segmenter-step-truncated-to-32-bits")
+		default:
+			v := c.Tracks[vi]
+			return harness.Failf("C11|"+area+"|segment boundary not at the documented sync sample",
+				"%s: segments start at video samples %v (0-based); step = %d ms * %d / 1000 = %d ticks: the sync samples with presentation time >= k*step are %v, with decode time >= k*step %v",
+				cmdline, videoOut.segFirst, c.SegDurMS, v.Timescale, c.SegDurMS*uint64(v.Timescale)/1000, startsPres, startsDec), info
+		}
+		info.add(wideStep, "segmenter-step-beyond-32-bits", "")
 	}
 	// ---- evidence
 	nseg := len(videoOut.segFirst)
@@ -466,7 +614,6 @@ func evalSegmenter(c *segCase) (fail *harness.Fail, info evalInfo) {
 		}
 	}
 	info.add(offEdge, "segmenter-boundary-inside-chunk", "")
-	info.add(videoOut.emptySegs > 0, "segmenter-segment-without-video-samples", "")
 	info.nontrivial = nseg >= 2 && offEdge
 	return nil, info
 }
@@ -518,7 +665,7 @@ func totalSec(tr mp4build.Track) float64 {
 
 func genSegmenter(t *rapid.T) (segCase, bool, []string) {
 	var excluded []string
-	tracks, lay, mode, segDurMS, forced := mp4build.GenSegmenterInput(t, harness.Pick(30, 60), avoiding(false, "segmenter-video-without-stss"))
+	tracks, lay, mode, segDurMS, forced := mp4build.GenSegmenterInputOpt(t, harness.Pick(30, 60), avoiding(false, "segmenter-video-without-stss"), mp4build.SegGenOpt{WideStep: true})
 	if forced {
 		excluded = append(excluded, "segmenter-video-without-stss")
 	}
@@ -650,13 +797,17 @@ func evalResegmenter(c *resegCase) (fail *harness.Fail, info evalInfo) {
 	if res.StartErr != nil {
 		return harness.Failf("harness|c11|cannot start tool", "%v", res.StartErr), info
 	}
+	info.add(res.SlowUnderLoad, "tool-slow-under-load", "")
+	if res.TimedOut {
+		return timeLimitFail(area, fmt.Sprintf("resegmenter -d %d", c.ChunkDur), res), info
+	}
 	if crashed, class := res.crashed(); crashed {
 		info.class("resegmenter-exit-crash")
 		return harness.Failf("C11|"+area+"|panic ("+class+")", "resegmenter -d %d: exit status %d\n%s", c.ChunkDur, res.Exit, tail(res.Stderr, 1500)), info
 	}
 	if res.Exit != 0 {
 		info.class("resegmenter-exit-error", "resegmenter-exit-error: "+exitReason(res.Stderr))
-		return nil, info
+		return harness.Failf("C11|"+area+"|error on valid input", "resegmenter -d %d: exit status %d: %s", c.ChunkDur, res.Exit, tail(res.Stderr, 600)), info
 	}
 	info.class("resegmenter-exit-0")
 	out, err := os.ReadFile(filepath.Join(dir, "out.mp4"))
@@ -698,9 +849,88 @@ func evalResegmenter(c *resegCase) (fail *harness.Fail, info evalInfo) {
 	}
 	info.add(len(p.Moofs) >= 2, "resegmenter-segments>=2", "resegmenter-segments-1")
 	info.add(len(p.Moofs) >= 4, "resegmenter-segments>=4", "")
+	var total uint64
+	for _, s := range c.Track.Samples {
+		total += uint64(s.Dur)
+	}
+	info.add(total > 0xffffffff, "resegmenter-durations-sum-beyond-32-bits", "")
 	info.add(offEdge, "resegmenter-boundary-inside-input-run", "")
 	info.nontrivial = len(p.Moofs) >= 2 && offEdge
 	return nil, info
+}
+
+// genHugeDurs overwrites, in one track out of eight, 2..4 sample durations with values around 2^31 and
+// 2^32-1, so that accumulated durations pass 2^32 inside a few samples, and returns true when it did.
+// (Decode times are 64-bit; a sum of per-sample durations is not bounded by 32 bits anywhere in 14496-12.)
+func genHugeDurs(t *rapid.T, tr *fragbuild.Track) bool {
+	if rapid.IntRange(0, 7).Draw(t, "hugeDurs") != 0 {
+		return false
+	}
+	n := len(tr.Samples)
+	k := rapid.IntRange(2, 4).Draw(t, "hugeDurCount")
+	if k > n {
+		k = n
+	}
+	first := rapid.IntRange(0, n-k).Draw(t, "hugeDurFirst")
+	for i := first; i < first+k; i++ {
+		tr.Samples[i].Dur = rapid.SampledFrom([]uint32{0x40000000, 0x7fffffff, 0x80000000, 0xffffffff}).Draw(t, "hugeDur")
+	}
+	return true
+}
+
+// fitSidx: a sidx reference holds a 32-bit subsegment_duration; when a segment of the drawn layout lasts
+// longer than that (genHugeDurs) it cannot be indexed: the layout loses its sidx boxes, and segments that
+// only a top-level sidx delimited become one segment.
+func fitSidx(tr *fragbuild.Track, lay *fragbuild.FileLayout) {
+	pos, over := 0, false
+	for _, sg := range lay.Segments {
+		var sum uint64
+		for _, fr := range sg.Frags {
+			for _, r := range fr.Runs {
+				for k := 0; k < r.N && pos < len(tr.Samples); k++ {
+					sum += uint64(tr.Samples[pos].Dur)
+					pos++
+				}
+			}
+		}
+		over = over || (sum > 0xffffffff && (sg.Sidx || lay.TopSidx))
+	}
+	if !over {
+		return
+	}
+	for i := range lay.Segments {
+		lay.Segments[i].Sidx = false
+	}
+	if lay.TopSidx {
+		lay.TopSidx, lay.TopSidxGap = false, 0
+		if !lay.Segments[0].Styp {
+			for _, sg := range lay.Segments[1:] {
+				lay.Segments[0].Frags = append(lay.Segments[0].Frags, sg.Frags...)
+			}
+			lay.Segments = lay.Segments[:1]
+		}
+	}
+}
+
+// genPrefixTicks draws a target duration from the exact (64-bit) prefix sums of the sample durations,
+// -1/0/+1, clipped to 32 bits (the width of the parameter).
+func genPrefixTicks(t *rapid.T, tr *fragbuild.Track, label string) uint64 {
+	j := rapid.IntRange(1, len(tr.Samples)).Draw(t, label+"Samples")
+	var d uint64
+	for _, s := range tr.Samples[:j] {
+		d += uint64(s.Dur)
+	}
+	d += uint64(rapid.IntRange(0, 2).Draw(t, label+"Delta"))
+	if d > 0 {
+		d--
+	}
+	if d > 0xffffffff {
+		d = 0xffffffff
+	}
+	if d == 0 {
+		d = 1
+	}
+	return d
 }
 
 // genChunkDur draws a duration (ticks) related to the sample durations of the track.
@@ -752,9 +982,15 @@ func genReseg(t *rapid.T) (resegCase, bool, []string) {
 			}
 		}
 	}
+	huge := genHugeDurs(t, &tr)
 	lay := fragbuild.GenLayout(t, []fragbuild.Track{tr}, libLayoutOpt())
+	fitSidx(&tr, &lay)
 	c := resegCase{Track: tr, Layout: lay}
-	c.ChunkDur = genTicks(t, &tr, "chunkDur")
+	if huge && rapid.Bool().Draw(t, "chunkDurPrefix") {
+		c.ChunkDur = genPrefixTicks(t, &tr, "chunkDurPrefix")
+	} else {
+		c.ChunkDur = genTicks(t, &tr, "chunkDur")
+	}
 	// the tool sizes a slice by nrSamples*firstDuration/chunkDur: keep that below 100000 entries
 	if lo := uint64(len(tr.Samples))*uint64(tr.Samples[0].Dur)/100000 + 1; c.ChunkDur < lo {
 		c.ChunkDur = lo
@@ -884,6 +1120,10 @@ func evalFragmentify(c *fragmCase) (fail *harness.Fail, info evalInfo) {
 				offEdge = true
 			}
 			if c.Duration > 0 && sum-lastDur >= uint64(c.Duration) {
+				if sum-lastDur > 0xffffffff && avoiding(c.NoAvoid, "fragmentify-accumulated-duration-wraps") {
+					info.exclude("fragmentify-accumulated-duration-wraps")
+					continue
+				}
 				return harness.Failf("C11|"+area+"|fragment continues after reaching the target duration",
 					"Fragmentify(duration %d): output fragment %d (samples %d..%d) had already accumulated %d before its last sample", c.Duration, fi+1, fr.first+1, end, sum-lastDur), info
 			}
@@ -898,10 +1138,13 @@ func evalFragmentify(c *fragmCase) (fail *harness.Fail, info evalInfo) {
 		}
 	}
 	zero := false
+	var total uint64
 	for _, s := range c.Track.Samples {
 		zero = zero || s.Dur == 0
+		total += uint64(s.Dur)
 	}
 	info.add(zero, "fragmentify-zero-duration-samples", "")
+	info.add(total > 0xffffffff, "fragmentify-durations-sum-beyond-32-bits", "")
 	info.add(len(frags) >= 2, "fragmentify-fragments>=2", "fragmentify-fragments-1")
 	info.add(len(frags) > len(f.Segments), "fragmentify-segment-split", "")
 	info.add(offEdge, "fragmentify-boundary-inside-input-run", "")
@@ -911,9 +1154,16 @@ func evalFragmentify(c *fragmCase) (fail *harness.Fail, info evalInfo) {
 
 func genFragm(t *rapid.T) (fragmCase, bool, []string) {
 	tr := genFragTrack(t, harness.Pick(24, 48), true)
+	huge := genHugeDurs(t, &tr)
 	lay := fragbuild.GenLayout(t, []fragbuild.Track{tr}, libLayoutOpt())
+	fitSidx(&tr, &lay)
 	c := fragmCase{Track: tr, Layout: lay}
-	d := genTicks(t, &tr, "duration")
+	var d uint64
+	if huge {
+		d = genPrefixTicks(t, &tr, "durationPrefix")
+	} else {
+		d = genTicks(t, &tr, "duration")
+	}
 	if rapid.IntRange(0, 19).Draw(t, "durationZero") == 0 {
 		d = 0
 	}
@@ -990,13 +1240,17 @@ func evalCombine(c *combineCase) (fail *harness.Fail, info evalInfo) {
 	if res.StartErr != nil {
 		return harness.Failf("harness|c11|cannot start tool", "%v", res.StartErr), info
 	}
+	info.add(res.SlowUnderLoad, "tool-slow-under-load", "")
+	if res.TimedOut {
+		return timeLimitFail(area, "combine-segs", res), info
+	}
 	if crashed, class := res.crashed(); crashed {
 		info.class("combinesegs-exit-crash")
 		return harness.Failf("C11|"+area+"|panic ("+class+")", "combine-segs: exit status %d\n%s", res.Exit, tail(res.Stderr, 1500)), info
 	}
 	if res.Exit != 0 {
 		info.class("combinesegs-exit-error", "combinesegs-exit-error: "+exitReason(res.Stderr))
-		return nil, info
+		return harness.Failf("C11|"+area+"|error on valid input", "combine-segs: exit status %d: %s", res.Exit, tail(res.Stderr, 600)), info
 	}
 	info.class("combinesegs-exit-0")
 	ib, err1 := os.ReadFile(filepath.Join(dir, "combined-init.mp4"))
